@@ -86,10 +86,17 @@ fn base_query(r: &mut StdRng, qn: &str, ty: u16, class: u16) -> Vec<u8> {
 }
 
 fn emit_req(s: &Session, out: &mut Out, m: &[u8], t: Transport, twin: bool) {
-    let mut rec = handle(&s.server, m, t, SRC);
+    emit_on(&s.server, out, m, t, twin);
+}
+
+/// One request; over UDP optionally with its TCP twin (the complete response to the same octets). The twin is only
+/// attached when both calls fell into the same second of the server's clock, so that time-dependent TSIG outcomes
+/// (BADTIME at the edge of the fudge window) are the same for both.
+fn emit_on<C: quandary::db::Catalog>(server: &Server<C>, out: &mut Out, m: &[u8], t: Transport, twin: bool) {
+    let mut rec = handle(server, m, t, SRC);
     if twin && t == Transport::Udp {
-        let tw = handle(&s.server, m, Transport::Tcp, SRC);
-        if tw["out"] == "resp" {
+        let tw = handle(server, m, Transport::Tcp, SRC);
+        if tw["out"] == "resp" && tw["t1"] == rec["t0"] {
             rec["tcp"] = tw["resp"].clone();
         }
     }
@@ -123,9 +130,12 @@ fn resolve(r: &mut StdRng, out: &mut Out, ncat: usize, per_name: usize, o: ZoneO
 /// C04: big answers, random advertised payload sizes, UDP with TCP twin.
 fn size(r: &mut StdRng, out: &mut Out, ncat: usize, per_name: usize) {
     let o = ZoneOpts { big: true, weird: false, chains: false };
-    for _ in 0..ncat {
-        let pl = [512u16, 513, 600, 1232, 1500, 4096, 16384, 65535, r.gen_range(512..=65535)];
+    for ci in 0..ncat {
+        // every other session (the first included) with a server size of 4096, so that complete responses of 514..4096
+        // octets can be matched to the octet by the advertised size; the others with sizes from the whole range
+        let pl: Vec<u16> = if ci % 2 == 0 { vec![4096] } else { vec![512u16, 513, 600, 1232, 1500, 4096, 16384, 65535, r.gen_range(512..=65535)] };
         let s = new_session(r, out, o, false, 0, false, &pl);
+        let mut exact = 0;
         for qn in query_names(&s) {
             for _ in 0..per_name {
                 let ty = *[1u16, 1, 1, 2, 16, 28, 255, 15].choose(r).unwrap();
@@ -135,8 +145,71 @@ fn size(r: &mut StdRng, out: &mut Out, ncat: usize, per_name: usize) {
                     push_additional(&mut m, &opt_rr(adv, 0, &[0], &[]));
                 }
                 emit_req(&s, out, &m, Transport::Udp, true);
+                // the advertised size swept across the exact length of the complete (TCP) response: for the first twelve
+                // queries of the session whose complete response lies between 512 octets and the server's size, then now and then
+                let probe = handle(&s.server, &{ let mut t = base_query(r, &qn, ty, 1); push_additional(&mut t, &opt_rr(65535, 0, &[0], &[])); t }, Transport::Tcp, SRC);
+                let pl = probe["resp"].as_array().map(|a| a.len()).unwrap_or(0);
+                let fits_window = pl >= 514 && pl <= s.payload as usize;
+                if (fits_window && exact < 12) || r.gen_bool(0.06) {
+                    if fits_window { exact += 1; }
+                    let base = base_query(r, &qn, ty, 1);
+                    let full = handle(&s.server, &{ let mut t = base.clone(); push_additional(&mut t, &opt_rr(65535, 0, &[0], &[])); t }, Transport::Tcp, SRC);
+                    let l = full["resp"].as_array().map(|a| a.len()).unwrap_or(0) as i64;
+                    for d in [-2i64, -1, 0, 1] {
+                        let adv = l + d;
+                        if adv >= 512 && adv <= 65535 {
+                            let mut m2 = base.clone();
+                            push_additional(&mut m2, &opt_rr(adv as u16, 0, &[0], &[]));
+                            emit_req(&s, out, &m2, Transport::Udp, true);
+                        }
+                    }
+                }
             }
         }
+    }
+}
+
+/// C02 / C13, responses longer than 16 KiB: a wildcard MX RRset of 175 pairs of targets a.<h>.huge.test. /
+/// b.<h>.huge.test. (<h> = one 60-octet label per pair): the second target of a pair is compressed against the first
+/// one's <h> label. The QNAME's prefix labels are sized so that the <h> label of one pair starts exactly at offset 16384
+/// (and, for the neighbouring sizes, just before / after it): there it must not be a compression target, a 14-bit
+/// pointer reaches 16383 at most. TCP only.
+fn huge_session(r: &mut StdRng, out: &mut Out, around: &[i64]) {
+    use quandary::db::catalog::Entry;
+    use quandary::db::zone::GluePolicy;
+    let apex = "huge.test.";
+    let mut soa = w("ns.huge.test.");
+    soa.extend(w("admin.huge.test."));
+    for v in [1u32, 2, 3, 4, 60] { soa.extend_from_slice(&v.to_be_bytes()); }
+    let mut recs = vec![
+        Rec { owner: apex.into(), ty: 6, ttl: 60, rdata: soa },
+        Rec { owner: apex.into(), ty: 2, ttl: 60, rdata: w("ns.huge.test.") },
+        Rec { owner: "ns.huge.test.".into(), ty: 1, ttl: 60, rdata: vec![192, 0, 2, 1] },
+    ];
+    for i in 0..175u32 {
+        for ab in ["a", "b"] {
+            let t = format!("{}.h{:03}{}.huge.test.", ab, i, "x".repeat(56));
+            let mut rd = vec![(i >> 8) as u8, (i & 255) as u8];
+            rd.extend(w(&t));
+            recs.push(Rec { owner: "*.huge.test.".into(), ty: 15, ttl: 60, rdata: rd });
+        }
+    }
+    let (zone, jrecs, _) = build_zone(apex, 1, &recs, GluePolicy::Narrow);
+    let mut cat = Cat::new();
+    cat.insert(Entry::Loaded(Arc::new(zone), ()));
+    let server = Server::new(Arc::new(cat));
+    out.emit(json!({"ev": "Cfg", "catalog": [{"name": w(apex), "class": 1, "state": "loaded", "records": jrecs}], "payload": 1232, "keys": [], "rrl": false, "strict": true}));
+    // a pair = (2 + 10 + 2 + "a" 2 + <h> 61 + pointer 2) + (2 + 10 + 2 + "b" 2 + pointer 2) = 79 + 18 = 97 octets; the first
+    // record starts right after the question (12 + prefix + 11 + 4), its <h> label 16 octets further on
+    let base = |p: i64| 12 + p + 11 + 4 + 16;
+    let p0 = (2..=120i64).find(|p| (16384 - base(*p)) % 97 == 0).unwrap();
+    for d in around {
+        let p = p0 + d;
+        if p < 2 || p > 126 { continue; }
+        // prefix of p octets on the wire: one or two labels
+        let qn = if p <= 64 { format!("{}.huge.test.", "q".repeat(p as usize - 1)) } else { format!("{}.{}.huge.test.", "q".repeat(62), "r".repeat(p as usize - 64)) };
+        let m = base_query(r, &qn, 15, 1);
+        emit_on(&server, out, &m, Transport::Tcp, false);
     }
 }
 
@@ -155,9 +228,63 @@ fn dispatch(r: &mut StdRng, out: &mut Out, ncat: usize, n: usize) {
                 let opcode: u8 = r.gen_range(0..16);
                 m[2] = (m[2] & 0x87) | (opcode << 3);
             }
+            // opcodes whose requests need not carry a question (QDCOUNT 0, and 2): the opcode decides before the question does
+            match r.gen_range(0..12) {
+                0 => { m[5] = 0; m.truncate(12); }
+                1 => { m[5] = 2; let q2 = m[12..].to_vec(); m.extend_from_slice(&q2); }
+                _ => {}
+            }
             if r.gen_bool(0.2) { push_additional(&mut m, &opt_rr(1232, 0, &[0], &[])); }
             emit_req(&s, out, &m, pick_transport(r), false);
         }
+        // names that are not subdomains of a catalog entry although their octets end like one: a label whose last
+        // octets are <length octet of the apex's first label><that label>
+        for apex in s.names.clone() {
+            if apex == "." { continue; }
+            let aw = w(&apex);
+            let first_len = aw[0] as usize;
+            if first_len + 2 > 63 { continue; }
+            let mut q = vec![(first_len + 2) as u8, b'x'];
+            q.extend_from_slice(&aw[..1 + first_len]);
+            q.extend_from_slice(&aw[1 + first_len..]);
+            if q.len() > 255 { continue; }
+            for ty in [1u16, 6] {
+                let mut m = Query { id: r.gen(), flags: 0, qname: q.clone(), qtype: ty, qclass: 1 }.encode();
+                if r.gen_bool(0.3) { push_additional(&mut m, &opt_rr(1232, 0, &[0], &[])); }
+                emit_req(&s, out, &m, pick_transport(r), false);
+            }
+        }
+    }
+}
+
+/// C07 with the other Catalog implementation: a server over a SingleZoneCatalog (one zone; everything else is REFUSED).
+fn dispatch_single(r: &mut StdRng, out: &mut Out, n: usize) {
+    use quandary::db::catalog::Entry;
+    use quandary::db::zone::GluePolicy;
+    use quandary::db::SingleZoneCatalog;
+    let o = ZoneOpts { big: false, weird: false, chains: false };
+    let apex = *["example.test.", "a-label-of-more-than-sixteen-octets.test.", "test."].choose(r).unwrap();
+    let class = *[1u16, 1, 3].choose(r).unwrap();
+    let recs = gen_zone(r, apex, class, &[], o);
+    let (zone, jrecs, mut names) = build_zone(apex, class, &recs, GluePolicy::Narrow);
+    let server = Server::new(Arc::new(SingleZoneCatalog::new(Entry::Loaded(Arc::new(zone), ()))));
+    out.emit(json!({"ev": "Cfg", "catalog": [{"name": w(apex), "class": class, "state": "loaded", "records": jrecs}], "payload": 1232, "keys": [], "rrl": false, "strict": true}));
+    names.push(apex.to_string());
+    names.extend(["test.", "other.", ".", "xexample.test.", "ample.test."].iter().map(|s| s.to_string()));
+    let mut qnames: Vec<Vec<u8>> = names.iter().map(|n| w(n)).collect();
+    // not subdomains of the zone although their octets end like its name
+    if let Some(t) = tail_trick_wire(&w(apex)) { qnames.push(t.clone()); let mut v = vec![1, b'a']; v.extend(t); qnames.push(v); }
+    for _ in 0..n {
+        let qn = qnames.choose(r).unwrap().clone();
+        let ty = *[1u16, 2, 6, 255, 252, 16].choose(r).unwrap();
+        let qclass = *[1u16, 1, 3, 255, 254, 4].choose(r).unwrap();
+        let mut m = Query { id: r.gen(), flags: 0, qname: qn, qtype: ty, qclass }.encode();
+        if r.gen_bool(0.2) { let opcode: u8 = r.gen_range(0..16); m[2] = (m[2] & 0x87) | (opcode << 3); }
+        emit_on(&server, out, &m, pick_transport(r), false);
+    }
+    for qn in &qnames {
+        let m = Query { id: r.gen(), flags: 0, qname: qn.clone(), qtype: 1, qclass: class }.encode();
+        emit_on(&server, out, &m, pick_transport(r), false);
     }
 }
 
@@ -196,7 +323,15 @@ fn header(r: &mut StdRng, out: &mut Out, stride: usize) {
 }
 
 fn plain_rr(r: &mut StdRng) -> Vec<u8> {
-    let owner: Vec<u8> = match r.gen_range(0..4) { 0 => vec![0xc0, 0x0c], 1 => vec![1, b'x', 0], 2 => vec![0], _ => vec![3, b'w', b'w', b'w', 0xc0, 0x0c] };
+    let mut owner: Vec<u8> = match r.gen_range(0..4) { 0 => vec![0xc0, 0x0c], 1 => vec![1, b'x', 0], 2 => vec![0], _ => vec![3, b'w', b'w', b'w', 0xc0, 0x0c] };
+    if r.gen_bool(0.08) {
+        // an owner of 253..257 octets: ended by the root, or by a pointer to the QNAME (which then makes it longer still)
+        let total = r.gen_range(253usize..=257);
+        owner = Vec::new();
+        let mut left = total - 1;
+        while left > 1 { let ll = (left - 1).min(*[63usize, 20, 1].choose(r).unwrap()); owner.push(ll as u8); for _ in 0..ll { owner.push(b'o'); } left -= ll + 1; }
+        if r.gen_bool(0.7) { owner.push(0); } else { owner.extend_from_slice(&[0xc0, 0x0c]); }
+    }
     let ty = *[1u16, 1, 16, 2, 65280].choose(r).unwrap();
     let rd: Vec<u8> = (0..r.gen_range(0..8)).map(|_| r.gen()).collect();
     rr(&owner, ty, 1, r.gen(), &rd)
@@ -219,7 +354,13 @@ fn mutate_one(r: &mut StdRng, s: &Session, out: &mut Out, base: &[u8], t: Transp
             let ttl: u32 = *[0u32, 0x00010000, 0x80010000, 0x80000000, 0x00008000, 0xff000000, 0x00ff0000, 0x7f000000, 0x8000_8000].choose(r).unwrap();
             push_additional(&mut m, &opt_rr(*[0u16, 100, 512, 1232, 4096, 65535].choose(r).unwrap(), ttl, &[0], &[]));
         }
-        7 => { push_additional(&mut m, &opt_rr(1232, 0, &[1, b'a', 0], &[])); }
+        7 => {
+            // an OPT whose owner is not the root, alone or together with a second fault (unsupported version, bad option list):
+            // the malformed record is FORMERR whatever else is wrong with it
+            let ttl: u32 = match r.gen_range(0..3) { 0 => 0, 1 => (r.gen_range(1..=255u32)) << 16, _ => 0x0001_8000 };
+            let rd: Vec<u8> = if r.gen_bool(0.2) { vec![0, 10, 0, 5, 1] } else { vec![] };
+            push_additional(&mut m, &opt_rr(1232, ttl, &[1, b'a', 0], &rd));
+        }
         8 => { push_additional(&mut m, &opt_rr(1232, 0, &[0], &[])); push_additional(&mut m, &opt_rr(r.gen(), 0, &[0], &[])); }
         9 => { let sec = *[7usize, 9].choose(r).unwrap(); m[sec] = 1; m.extend(opt_rr(1232, 0, &[0], &[])); }
         10 => {
@@ -362,7 +503,29 @@ fn crafted_tsig_session(r: &mut StdRng, out: &mut Out) {
                 let p = TsigParams { key_name: w(name), alg_name: w(alg.name()), time: unix_now(), fudge: 300,
                                      orig_id: u16::from_be_bytes([m[0], m[1]]), error: 0, other: vec![], class: 255, ttl: 0 };
                 tsig_sign(&mut m, &p, *alg, secret, None);
-                out.emit(handle(&server, &m, t, SRC));
+                emit_on(&server, out, &m, t, true);
+            }
+            // the advertised payload size swept across the exact length of the complete signed response: a signed
+            // response that fits is not truncated, one that does not fit is (UDP with TCP twin)
+            let sign = |m: &mut Vec<u8>| {
+                let p = TsigParams { key_name: w(name), alg_name: w(alg.name()), time: unix_now(), fudge: 300,
+                                     orig_id: u16::from_be_bytes([m[0], m[1]]), error: 0, other: vec![], class: 255, ttl: 0 };
+                tsig_sign(m, &p, *alg, secret, None);
+            };
+            let base = base_query(r, qn, ty, 1);
+            let mut probe = base.clone();
+            push_additional(&mut probe, &opt_rr(1232, 0, &[0], &[]));
+            sign(&mut probe);
+            let full = handle(&server, &probe, Transport::Tcp, SRC);
+            let l = full["resp"].as_array().map(|a| a.len()).unwrap_or(0) as i64;
+            for d in -8i64..=2 {
+                let adv = l + d;
+                if adv >= 513 && adv <= 1232 {
+                    let mut m = base.clone();
+                    push_additional(&mut m, &opt_rr(adv as u16, 0, &[0], &[]));
+                    sign(&mut m);
+                    emit_on(&server, out, &m, Transport::Udp, true);
+                }
             }
         }
     }
@@ -443,7 +606,7 @@ fn tsig(r: &mut StdRng, out: &mut Out, ncat: usize, n: usize) {
                     let p = TsigParams { key_name: w(&k.name), alg_name: w(k.alg.name()), time: unix_now(), fudge: 300,
                                          orig_id: u16::from_be_bytes([m[0], m[1]]), error: 0, other: vec![], class: 255, ttl: 0 };
                     tsig_sign(&mut m, &p, k.alg, &k.secret, None);
-                    out.emit(handle(&s.server, &m, Transport::Udp, SRC));
+                    emit_req(&s, out, &m, Transport::Udp, true);
                 }
             }
         }
@@ -542,7 +705,9 @@ pub fn main(args: &[String]) {
     match profile {
         "resolve" => resolve(&mut r, &mut out, scale, 2, ZoneOpts { big: false, weird: false, chains: true }),
         "size" => size(&mut r, &mut out, scale, 2),
-        "dispatch" => dispatch(&mut r, &mut out, scale, 150),
+        // responses beyond 16 KiB: the alignment that puts a name at offset 16384 and its neighbours (all 21 alignments from scale 4 on)
+        "huge" => { let all: Vec<i64> = (-10..=10).collect(); huge_session(&mut r, &mut out, if scale >= 4 { &all } else if scale >= 1 { &[0, 1, -1] } else { &[0] }) }
+        "dispatch" => { dispatch(&mut r, &mut out, scale, 150); for _ in 0..(scale / 4).max(2) { dispatch_single(&mut r, &mut out, 80); } }
         "header" => header(&mut r, &mut out, scale),
         "mutate" => mutate(&mut r, &mut out, scale, 60),
         "edns" => edns(&mut r, &mut out, scale, 100),
